@@ -35,14 +35,21 @@ class CallMixin:
         for a in n.args:
             if isinstance(a, ast.Starred):
                 v = self.ev(a.value, fr)
-                args.extend(self.concrete_iter(v, a, fr))
+                spec = self.iter_spec(v, a, fr)
+                if spec[0] == 'concrete':
+                    args.extend(spec[1])
+                else:
+                    args.append(OpaqueV('starargs', v))       # *args of symbolic length: only acceptable for opaque callees
             else:
                 args.append(self.ev(a, fr))
         for k in n.keywords:
             if k.arg is None:
                 v = self.ev(k.value, fr)
-                for kt, vt in self.concrete_items(v, k, fr):
-                    kwargs[sym.py_of_val(kt)] = self.unbox(vt)
+                try:
+                    for kt, vt in self.concrete_items(v, k, fr):
+                        kwargs[sym.py_of_val(kt)] = self.unbox(vt)
+                except Unsupported:
+                    kwargs['**' + str(len(kwargs))] = OpaqueV('starkwargs', v)
             else:
                 kwargs[k.arg] = self.ev(k.value, fr)
         return args, kwargs
@@ -294,7 +301,7 @@ class CallMixin:
                 feas.append(o)
             else:
                 rs, w = o
-                if w is None or run.pos < len(run.prefix) or run.feasible(w):
+                if w is None or run.feasible(w):
                     feas.append(o)
         k = run.choose(len(feas), f'outcome:{tag}')
         o = feas[k]
@@ -313,7 +320,7 @@ class CallMixin:
                 run.assume(z3.Not(rs.when(sc)))
         # effects performed by the callee (dominance through callees)
         for eff in c.effects:
-            run.event(eff[0], via=fi.key, lineno=ln, cond=eff[1](sc) if len(eff) > 1 and eff[1] else None)
+            run.event(eff[0], via=fi.key, lineno=ln, args=list(args), heap=self.heap.snapshot(), index=len(run.events))
         # frame + havoc
         if c.modifies is not None:
             for field, refs in c.modifies(sc):
@@ -365,6 +372,9 @@ class CallMixin:
                 for k in names:
                     flds.setdefault(k, NONE)
             return ExcV(name, tuple(args), flds, lineno=getattr(n, 'lineno', None))
+        if name == 'persistent_id':
+            # int subclass carrying id(obj) (and a reference keeping obj alive): the identity
+            return SV(sym.mk_int(sym.r_of(self.sv(args[0], n).t)))
         if name == 'NodePath':
             if not args:
                 return PathV(z3.Empty(sym.PathSort))
@@ -538,15 +548,24 @@ class CallMixin:
         v = self.ev(n.args[0], fr)
         if isinstance(v, SV):
             t = sym.simp(v.t)
-            if z3.is_true(sym.simp(sym.is_str(t))):
+            if self.known(sym.is_str(t)):
                 return v
-            if z3.is_true(sym.simp(sym.is_int(t))):
+            if self.known(sym.is_int(t)):
                 return SV(Val.str(z3.IntToStr(sym.i_of(t))))
-            if z3.is_true(sym.simp(sym.is_ref(t))):
+            if self.known(sym.is_ref(t)):
                 return self.eng.str_of_obj(self, v, n, fr)
         if isinstance(v, PathV):
             return SV(Val.str(self.eng.path_str(v.s)))
         return SV(Val.str(self.run.fresh('str', z3.StringSort())))
+
+    def known(self, cond):
+        """cond holds on this path (syntactically, or implied by the path condition)"""
+        c = sym.simp(cond)
+        if z3.is_true(c):
+            return True
+        if z3.is_false(c):
+            return False
+        return not self.run.feasible(z3.Not(c))
 
     def sp_repr(self, n, fr):
         self.ev(n.args[0], fr)
